@@ -120,6 +120,7 @@ ObsInv(e) ==
                      << o.pend /\ (~o.hv \/ ~o.full), "C07" >>,
                      << o.pend /\ o.cls = "M", "C19" >>,
                      << ~S!DispatchOK(hs, rs, e.seq, e.hid), "C08" >>,
+                     << o.pend /\ o.full /\ o.hv /\ o.rej, "C07" >>,
                      << o.pend /\ o.full /\ o.hv /\
                         ~( e.sid = o.req.sid /\ e.seq = o.req.seq /\ e.ty = o.req.ty /\ e.min = o.req.min
                            /\ e.fl = o.req.fl /\ e.maj = o.req.maj /\ e.b = ClrTab[lf] ), "C05" >> })
